@@ -213,6 +213,19 @@ def main(argv=None):
                     r["replay_done"] = rep
                     failed.append((c, ov, r))
                 else:
+                    # the unvalidated candidate was no failing input: the obligation is still only undecided, so the
+                    # contract's concrete oracle (if it names one) is asked exactly as for any other undecided obligation
+                    probe = getattr(c, "undecided_probe", None)
+                    if probe:
+                        key = (c.cid, json.dumps(probe, sort_keys=True))
+                        if key not in probe_cache:
+                            probe_cache[key] = replayer.run_harness(probe["harness"], dict(probe, obligation=r["name"], seed=seed), timeout=300)
+                        rep2 = dict(probe_cache[key], case=probe)
+                        if rep2.get("reproduced"):
+                            r["replay_done"] = rep2
+                            r["reason"] += " (decided by the concrete oracle of the clause)"
+                            failed.append((c, ov, r))
+                            continue
                     undecided.append("%s: %s (candidate did not reproduce)" % (r["name"], r["reason"]))
             else:
                 # the solver could not decide.  If the contract names an independent concrete oracle for its clauses, that
